@@ -353,7 +353,14 @@ impl From<&Model> for EnergyProps {
         let global_ventilation_rate = model
             .meta
             .global_ventilation_l_s
-            .map(|n_v_g| 3.6 * n_v_g / vol_env_inh_net)
+            // Sin volumen habitable dentro de la envolvente no hay tasa de ventilación que repartir
+            .map(|n_v_g| {
+                if vol_env_inh_net > 0.0 {
+                    3.6 * n_v_g / vol_env_inh_net
+                } else {
+                    0.0
+                }
+            })
             .unwrap_or_default();
 
         // Manejo de los opacos según disponibilidad de ensayo
